@@ -293,4 +293,12 @@ theorem C10_channel_order_skeleton :
     skelOf chanFile "recv" = ["dequeue.full", "cell.take", "enqueue.empty"] ∧
     skelOf chanFile "send" = ["dequeue.empty", "cell.write", "enqueue.full"] ∧ staysOnHit = true := by decide
 
+/-- **C10.origin_load_skeleton** — tie to the source (regenerated): what the origin-carrying exfiltrator hands out
+is `Origin::extract` of the record the raw exfiltrator's channel hands out - one `load` of the wrapped
+`WithRawSiginfo`, mapped through the extraction, and nothing that looks at or edits the result. So "a faithful
+copy of the information of one actual delivery" for `WithOrigin` is C10 for the raw records (above) composed with
+C17 for the extraction. -/
+theorem C10_origin_load_skeleton :
+    skelOf "src/iterator/exfiltrator/origin.rs" "load" = ["raw.load", "map.extract"] := by decide
+
 end SigHook.Scan
